@@ -88,6 +88,38 @@ void *writer_task(void *)
 				pm.src_remove(s);
 				R.points.push_back({inv, ret, i});
 				R.pstates.push_back(pm);
+			} else if (kind == "reload") {
+				// the library's own atomic-reload recipe (packets.c): copy the other sources into a shadow table, add the
+				// new set of this source, swap, free what was swapped out; for readers it is one instant (the swap)
+				int s = (int)((unsigned)op.geti("src") % 3u);
+				pfx_table shadow;
+				pfx_table_init(&shadow, NULL);
+				bool ok = pfx_table_copy_except_socket(&R.ptbl, &shadow, R.sm.ptr[(size_t)s]) == PFX_SUCCESS;
+				std::vector<PfxRec> added;
+				const J &nw = op["new"];
+				for (size_t q = 0; ok && q < nw.size(); q++) {
+					PfxRec r = PfxRec::from(nw[q]);
+					r.src = s;
+					pfx_record pr;
+					to_pfx_record(r, R.sm, &pr);
+					int rc = pfx_table_add(&shadow, &pr);
+					if (rc == PFX_SUCCESS)
+						added.push_back(r);
+					else if (rc != PFX_DUPLICATE_RECORD)
+						ok = false;
+				}
+				if (ok)
+					pfx_table_swap(&R.ptbl, &shadow);
+				pfx_table_free_without_notify(&shadow);
+				uint64_t ret = ++R.stamp;
+				if (ok) {
+					pm.src_remove(s);
+					for (auto &r : added)
+						pm.add(r);
+				}
+				R.points.push_back({inv, ret, i});
+				R.pstates.push_back(pm);
+				R.ctx.count("probe_writer_reload");
 			}
 		} else {
 			if (kind == "add" || kind == "rm") {
@@ -111,6 +143,36 @@ void *writer_task(void *)
 				smod.src_remove(s);
 				R.points.push_back({inv, ret, i});
 				R.sstates.push_back(smod);
+			} else if (kind == "reload") {
+				int s = (int)((unsigned)op.geti("src") % 3u);
+				spki_table shadow;
+				spki_table_init(&shadow, NULL);
+				bool ok = spki_table_copy_except_socket(&R.stbl, &shadow, (rtr_socket *)R.sm.ptr[(size_t)s]) == SPKI_SUCCESS;
+				std::vector<SpkiRec> added;
+				const J &nw = op["new"];
+				for (size_t q = 0; ok && q < nw.size(); q++) {
+					SpkiRec r = srec_from(nw[q]);
+					r.src = s;
+					spki_record sr;
+					to_spki_record(r, R.sm, &sr);
+					int rc = spki_table_add_entry(&shadow, &sr);
+					if (rc == SPKI_SUCCESS)
+						added.push_back(r);
+					else if (rc != SPKI_DUPLICATE_RECORD)
+						ok = false;
+				}
+				if (ok)
+					spki_table_swap(&R.stbl, &shadow);
+				spki_table_free_without_notify(&shadow);
+				uint64_t ret = ++R.stamp;
+				if (ok) {
+					smod.src_remove(s);
+					for (auto &r : added)
+						smod.add(r);
+				}
+				R.points.push_back({inv, ret, i});
+				R.sstates.push_back(smod);
+				R.ctx.count("probe_writer_reload");
 			}
 		}
 		R.ctx.count("writer_ops");
@@ -409,11 +471,31 @@ J gen_conc(uint64_t seed, const J &opts)
 				op["op"] = "rm";
 				op["r"] = r.json();
 				shadow.remove(r);
-			} else {
+			} else if (k < 95) {
 				int s = (int)g.below(3);
 				op["op"] = "srcrm";
 				op["src"] = s;
 				shadow.src_remove(s);
+			} else {
+				int s = (int)g.below(3);
+				op["op"] = "reload";
+				op["src"] = s;
+				auto old = shadow.of_src(s);
+				shadow.src_remove(s);
+				J recs = J::arr();
+				int n = (int)g.range(0, 5);
+				for (int q = 0; q < n; q++) {
+					PfxRec r = fresh();
+					if (!old.empty() && g.chance(500)) {
+						auto it = old.begin();
+						std::advance(it, (long)g.below(old.size()));
+						r = *it;
+					}
+					r.src = s;
+					if (shadow.add(r))
+						recs.push(r.json());
+				}
+				op["new"] = recs;
 			}
 			wops.push(op);
 		}
@@ -478,13 +560,39 @@ J gen_conc(uint64_t seed, const J &opts)
 				live.erase(live.begin() + (long)x);
 				op["op"] = "rm";
 				op["r"] = jrec(asns[(size_t)t[0]], t[1], t[2], t[3]);
-			} else {
+			} else if (k < 96) {
 				int s = (int)g.below(3);
 				op["op"] = "srcrm";
 				op["src"] = s;
 				for (size_t x = live.size(); x-- > 0;)
 					if (live[x][3] == s)
 						live.erase(live.begin() + (long)x);
+			} else {
+				int s = (int)g.below(3);
+				op["op"] = "reload";
+				op["src"] = s;
+				std::vector<std::array<int, 4>> old;
+				for (size_t x = live.size(); x-- > 0;)
+					if (live[x][3] == s) {
+						old.push_back(live[x]);
+						live.erase(live.begin() + (long)x);
+					}
+				J recs = J::arr();
+				int n = (int)g.range(0, 5);
+				for (int q = 0; q < n; q++) {
+					std::array<int, 4> t = {(int)g.below(3), (int)g.below((uint64_t)nski), serial++, s};
+					if (!old.empty() && g.chance(500)) {
+						t = old[g.below(old.size())];
+						bool dup = false;
+						for (auto &l : live)
+							dup |= l == t;
+						if (dup)
+							continue;
+					}
+					live.push_back(t);
+					recs.push(jrec(asns[(size_t)t[0]], t[1], t[2], t[3]));
+				}
+				op["new"] = recs;
 			}
 			wops.push(op);
 		}
